@@ -145,13 +145,6 @@ theorem apply_sees (b : Bool) (h : Heap) (a : Nat) (oc : Outcome) (o : OpObj) (l
     (gateApplyH b h a oc).seen = gateArgs l o.dagger :=
   gateApplyH_seen b h a oc o l h1 h2
 
-/-- what the repaired `MZgate.apply` sends to the back end for a daggered gate is `Gate.decompose` of
-the gate (reversed products of `_decompose`, flags flipped), for all parameters and modes -/
-theorem mz_dagger_is_decomposition (pin pex : Par) (a b : Nat) :
-    gateDecompose { cls := "MZgate", pars := [pin, pex], regs := [a, b], dagger := true } =
-      some (mzDaggerSeq pin pex a b) := by
-  rfl
-
 /-- **`Gate.decompose` does not mutate its inputs**: for every heap, gate and decomposition template,
 all operation objects and parameter lists that existed before the call are unchanged afterwards, and
 every command of the result refers to a newly allocated object (so the in-place dagger flips can only
